@@ -694,7 +694,7 @@ class Parser:
             )
 
         if value < 1 or value > 32767:
-            if self.current_file.name != "core_defs.yaml" and self.import_coredefs:
+            if not self.in_core_defs_file() and self.import_coredefs:
                 raise RTMASyntaxError(
                     f"Value outside of valid range [1 - 32767] for host_id: {name}: {value}"
                 )
@@ -719,7 +719,7 @@ class Parser:
 
         if value < 10 or (99 < value < 200):
             if (
-                self.current_file.name != "core_defs.yaml"
+                not self.in_core_defs_file()
                 and value != 0
                 and self.import_coredefs
             ):
@@ -1192,6 +1192,11 @@ class Parser:
                     raise DuplicateNameError(
                         f"Name conflict with a generated name: {section} -> {o.name} is also the name generated for {g.name}\n1: {g.src}\n2: {o.src}\n"
                     )
+
+    def in_core_defs_file(self) -> bool:
+        """True while the package's own core_defs.yaml is being read (not for a user file of that name)"""
+        pkg_dir = pathlib.Path(os.path.realpath(__file__)).parent
+        return self.current_file.resolve() == (pkg_dir / "core_defs/core_defs.yaml").resolve()
 
     def is_core(self, obj: Any) -> bool:
         """True for a definition of the package's core_defs (not for a user file in a directory of that name)"""
